@@ -1210,6 +1210,39 @@ theorem safe_needed_witness :
 
 end Frouros.C07s
 
+namespace Frouros.C07s
+open Frouros CUSUMFam C07
+
+/-- **A-posteriori form** (review T4): the margin is measured on the COMPUTED statistic - the quantity a user has - at twice the bound: if the statistic the
+carrier run computed is farther from `lambda` than `2·sumErr`, its verdict is the verdict of the real run.  (In `drift_transfer*` the margin is a hypothesis on the
+exact-arithmetic statistic, which the user does not have.) -/
+theorem drift_transfer_posteriori {α : Type} [Num α] {fin : α → Prop} {toR : α → ℝ} {u eta Omega : ℝ} {Nmax : ℕ} {M : ℝ}
+    (sm : StdModelIEEE α fin toR u eta Omega Nmax) (c : Cfg α) (hc : CfgFin fin c)
+    (xs : List α) (hfin : ∀ x ∈ xs, fin x) (hM : ∀ x ∈ xs, |toR x| ≤ M) (hN : xs.length ≤ Nmax)
+    (hsafe : Safe u eta Omega M (C07r.cfgR toR c) xs.length)
+    (hsep : c.minN ≤ xs.length →
+      2 * sumErr u eta M (C07r.cfgR toR c) xs.length < |toR (runL c xs).sum - toR c.lambda|) :
+    (runL c xs).drift = (runL (C07r.cfgR toR c) (xs.map toR)).drift := by
+  obtain ⟨hfs, herr⟩ := sum_err sm c hc xs hfin hM hN hsafe
+  refine drift_of_sum_err sm c hc.1 xs hfs herr ?_
+  intro h
+  have h2 := hsep h
+  have h3 : |toR (runL c xs).sum - toR c.lambda|
+      ≤ |toR (runL c xs).sum - (runL (C07r.cfgR toR c) (xs.map toR)).sum|
+        + |(runL (C07r.cfgR toR c) (xs.map toR)).sum - toR c.lambda| := by
+    have := abs_add_le (toR (runL c xs).sum - (runL (C07r.cfgR toR c) (xs.map toR)).sum)
+      ((runL (C07r.cfgR toR c) (xs.map toR)).sum - toR c.lambda)
+    simpa using this
+  linarith
+
+/-- the finite grid satisfies the structure at every `u ≥ 0` as well (by `mono`): on it the relative part is vacuous (review T4) -/
+theorem sm3_any_u : StdModelIEEE G3 Grid.fin Grid.toR (1 / 2 ^ 53) (1 / 2000) 10000 10000 :=
+  sm3.mono (by positivity) (le_refl _) (le_refl _) (by norm_num) (le_refl _)
+
+end Frouros.C07s
+
+#print axioms Frouros.C07s.drift_transfer_posteriori
+#print axioms Frouros.C07s.sm3_any_u
 #print axioms Frouros.stdModelIEEE_real
 #print axioms Frouros.stdModelIEEE_biased
 #print axioms Frouros.stdModelIEEE_real_clip
